@@ -11,6 +11,16 @@ import z3
 
 Z3_TIMEOUT_MS = int(os.environ.get('PYVC_Z3_TIMEOUT_MS', '10000'))
 CLI_TIMEOUT_S = int(os.environ.get('PYVC_CLI_TIMEOUT_S', '12'))
+# Budgets of the in-process z3 are given as *resource limits* (z3's deterministic step counter, about 2.5 million units
+# per second on an idle core), not as wall-clock time: the verdict of a query then does not depend on how busy the
+# machine is. The nominal "ms" budgets are converted with this factor; the wall-clock time-out is only a safety net.
+RLIMIT_PER_MS = int(os.environ.get('PYVC_RLIMIT_PER_MS', '2500'))
+WALL_FACTOR = 20
+
+
+def set_budget(solver, nominal_ms):
+    solver.set('rlimit', int(nominal_ms) * RLIMIT_PER_MS)
+    solver.set('timeout', int(nominal_ms) * WALL_FACTOR)
 
 
 def _to_smt2(pc, neg_goal) -> str:
@@ -69,18 +79,17 @@ def ematch_check(pc, neg, timeout_ms=8000, auto_config=True):
     s.set('smt.mbqi', False)
     if not auto_config:
         s.set('smt.auto_config', False)
-    s.set('timeout', timeout_ms)
+    set_budget(s, timeout_ms)
     s.add(*pc)
     s.add(neg)
-    t0 = time.time()
     r = s.check()
     if r == z3.unsat:
         return 'unsat'
     if r == z3.sat:
         return 'sat'
     reason = s.reason_unknown()
-    if 'incomplete' in reason and (time.time() - t0) * 1000 < timeout_ms * 0.8:
-        return 'saturated'
+    if 'incomplete' in reason:
+        return 'saturated'      # instantiation came to an end within the budget (not: budget exhausted)
     return 'unknown'
 
 
@@ -96,7 +105,7 @@ def check_valid(pc, goal, want_model=True, all_backends=False, z3_timeout_ms=Non
             return {'backend': 'z3-%s (e-matching, no auto-config)' % z3.get_version_string(), 'model': None, 'detail': '',
                     'verdict': 'proved', 'all': {'z3-ematch': 'proved'}, 'ms': int((time.time() - t0) * 1000)}
     s = z3.Solver()
-    s.set('timeout', z3_timeout_ms or Z3_TIMEOUT_MS)
+    set_budget(s, z3_timeout_ms or Z3_TIMEOUT_MS)
     s.add(*pc)
     s.add(neg)
     r = s.check()
@@ -175,7 +184,7 @@ def _fix_for_cvc5(text: str) -> str:
 
 def satisfiable(pc, timeout_ms=5000):
     s = z3.Solver()
-    s.set('timeout', timeout_ms)
+    set_budget(s, timeout_ms)
     s.add(*pc)
     r = s.check()
     verdict = 'sat' if r == z3.sat else ('unsat' if r == z3.unsat else 'unknown')
